@@ -229,17 +229,21 @@ type run struct {
 	api   string
 	flags byte // flag applied to the chunks selected by the pattern
 	all   bool // apply to every chunk (else a seeded pattern)
+	chain bool // async APIs: the next read is started from inside the completion callback (the usual read loop)
 }
 
 func (d *driver) runs() []run {
 	if d.mode == "lite" {
-		return []run{{"NF", 2, false}, {"ANF", 1, false}, {"NM", 0, true}, {"ANM", 1, true}}
+		return []run{{"NF", 2, false, false}, {"ANF", 1, false, false}, {"NM", 0, true, false}, {"ANM", 1, true, false},
+			{"ANM", 1, false, true}}
 	}
 	return []run{
-		{"NF", 0, true}, {"NF", 2, true},
-		{"ANF", 0, true}, {"ANF", 1, true}, {"ANF", 1, false},
-		{"NM", 0, true},
-		{"ANM", 0, true}, {"ANM", 1, true}, {"ANM", 1, false},
+		{"NF", 0, true, false}, {"NF", 2, true, false},
+		{"ANF", 0, true, false}, {"ANF", 1, true, false}, {"ANF", 1, false, false},
+		{"NM", 0, true, false},
+		{"ANM", 0, true, false}, {"ANM", 1, true, false}, {"ANM", 1, false, false},
+		{"ANF", 0, true, true}, {"ANF", 1, false, true},
+		{"ANM", 0, true, true}, {"ANM", 1, false, true},
 	}
 }
 
@@ -346,7 +350,46 @@ func (d *driver) one(sc *scenario, r run, ri int) (obs []Ev) {
 			}
 			return true
 		}
-		for call := 0; call < maxCalls; call++ {
+		if r.chain {
+			// read loop: every completion callback records what it got and starts the next read itself
+			finished, calls := false, 0
+			var issue func()
+			issue = func() {
+				calls++
+				fired := false
+				complete := func(e Ev) {
+					if fired {
+						rec(Ev{Ev: e.Ev, Err: "other", Op: "twice"})
+						return
+					}
+					fired = true
+					rec(e)
+					if e.Err != "nil" {
+						lastErr = e.Err
+						finished = true
+						return
+					}
+					if calls >= maxCalls {
+						finished = true
+						return
+					}
+					issue()
+				}
+				if r.api == "ANF" {
+					s.AsyncNextFrame(func(err error, f websocket.Frame) { complete(d.frameEv(sc, f, err)) })
+				} else {
+					s.AsyncNextMessage(d.mbuf, func(err error, n int, mt websocket.MessageType) {
+						complete(d.msgEv(sc, mt, n, err))
+					})
+				}
+			}
+			issue()
+			if !pump(&finished) {
+				rec(Ev{Ev: map[string]string{"ANF": "Frame", "ANM": "Msg"}[r.api], Err: "stuck"})
+				lastErr = "stuck"
+			}
+		}
+		for call := 0; call < maxCalls && !r.chain; call++ {
 			if t.zeroReads > 1000 {
 				panic("livelock: reads with an empty buffer")
 			}
